@@ -479,7 +479,7 @@ def keyfile_history_stream(ctx, res):
                 s, T = schema_of(method, typed)
                 root_key = newkey()
                 cfg = s(key_filename=root_key)
-                cfg.secret = "root-secret"
+                cfg.secret = "root-secret" + "-longer-than-one-key" * 3
                 parts = []
                 for k in range(2):
                     it = T()
@@ -503,21 +503,21 @@ def keyfile_history_stream(ctx, res):
                 except Exception as e:  # noqa
                     res.case(None, kind="key-history:setup-%s" % type(e).__name__)
                     continue
-                want = {"secret": "root-secret", "items": ["item-secret-0"], "one": "item-secret-1"}
+                want = {"secret": "root-secret" + "-longer-than-one-key" * 3, "items": ["item-secret-0"], "one": "item-secret-1"}
                 reload_check(s, cfg, root_key, want, {"stream": "key-history", "history": "part-serialised-alone-then-attached", "preview": preview, "method": method, "config_type": typed})
             # (2) two configurations of one schema, two key files, one secret
             s, T = schema_of(method, typed)
             k1, k2 = newkey(), newkey()
             a, b = s(key_filename=k1), s(key_filename=k2)
             for c in (a, b):
-                c.secret = "shared-initial-password"
+                c.secret = "shared-initial-password-that-is-longer-than-thirty-two-bytes"
                 c.items = [{"name": "x"}]
-                c.items[0].secret = "shared-initial-password"
+                c.items[0].secret = "shared-initial-password-that-is-longer-than-thirty-two-bytes"
                 if c.one is None:
                     c.one = T()
-                c.one.secret = "shared-initial-password"
+                c.one.secret = "shared-initial-password-that-is-longer-than-thirty-two-bytes"
             a.dumps(format="json")
-            want = {"secret": "shared-initial-password", "items": ["shared-initial-password"], "one": "shared-initial-password"}
+            want = {"secret": "shared-initial-password-that-is-longer-than-thirty-two-bytes", "items": ["shared-initial-password-that-is-longer-than-thirty-two-bytes"], "one": "shared-initial-password-that-is-longer-than-thirty-two-bytes"}
             reload_check(s, b, k2, want, {"stream": "key-history", "history": "second-configuration-own-key-same-secret", "method": method, "config_type": typed})
             reload_check(s, a, k1, want, {"stream": "key-history", "history": "first-configuration-after-second-saved", "method": method, "config_type": typed})
             # (3) one configuration, saved, key file replaced, saved again
